@@ -33,14 +33,15 @@ MANAGED = ["pre-commit", "prepare-commit-msg", "post-commit", "pre-rebase", "pos
            "post-rewrite", "reference-transaction"]
 
 TRACE_SCRIPT = r'''#!/bin/sh
+D="${GIT_DIR:-.git}"
 {
   printf 'H %%s' "$(basename "$0")"
   for a in "$@"; do printf ' [%%s]' "$a"; done
   printf ' RA=[%%s] rb=%%s cp=%%s sq=%%s te=%%s\n' "$GIT_REFLOG_ACTION" \
-    "$( { [ -d "$GIT_DIR/rebase-merge" ] || [ -d "$GIT_DIR/rebase-apply" ]; } && echo 1 || echo 0)" \
-    "$( [ -f "$GIT_DIR/CHERRY_PICK_HEAD" ] && echo 1 || echo 0)" \
-    "$( [ -d "$GIT_DIR/sequencer" ] && echo 1 || echo 0)" \
-    "$( [ -f "$GIT_DIR/rebase-merge/git-rebase-todo" ] && ! grep -q '[^[:space:]]' "$GIT_DIR/rebase-merge/git-rebase-todo" && echo 1 || echo 0)"
+    "$( { [ -d "$D/rebase-merge" ] || [ -d "$D/rebase-apply" ]; } && echo 1 || echo 0)" \
+    "$( [ -f "$D/CHERRY_PICK_HEAD" ] && echo 1 || echo 0)" \
+    "$( [ -d "$D/sequencer" ] && echo 1 || echo 0)" \
+    "$( [ -f "$D/rebase-merge/git-rebase-todo" ] && ! grep -q '[^[:space:]]' "$D/rebase-merge/git-rebase-todo" && echo 1 || echo 0)"
   case "$(basename "$0")" in
     post-rewrite|reference-transaction|pre-push) sed 's/^/I /' ;;
   esac
@@ -188,6 +189,10 @@ class GWorld(World):
     def cp_ai(self, s, paths):
         return self._ticked(super().cp_ai, s, paths)
 
+    def worktree_files(self):
+        # files under up/ belong to the upstream: local edits there would make every pull conflict
+        return [p for p in super().worktree_files() if not p.startswith("up/")]
+
     # ---- extra command shapes
     def op_checkout_path(self):
         files = self.tracked()
@@ -242,7 +247,7 @@ class GWorld(World):
     def upstream_commit(self):
         """a person commits upstream with plain git (own file, so a later pull never conflicts)"""
         self.up_n += 1
-        path = f"../up/up{self.up_n % 2}.txt"
+        path = f"../up/up/u{self.up_n % 2}.txt"
         old = self.sim.read(path) or ""
         self.write(path, old + self.fresh("H") + "\n")
         self.realgit("-C", "../up", "-c", "core.hooksPath=/dev/null", "add", "-A")
@@ -258,7 +263,8 @@ class GWorld(World):
             if not self._clean():
                 self.op_commit()
             rc, _, _ = self.git("pull", "--rebase", "-q", env_extra={"GIT_EDITOR": "true"})
-            self.trace.append(("pull_rebase", rc))
+            state = self._finish_sequencer("rebase", rc) if rc != 0 else "done"
+            self.trace.append(("pull_rebase", rc, state))
         else:
             # fast-forward only: local main must not be ahead of origin/main
             rc0, out, _ = self.sim.realgit("rev-list", "--count", "origin/main..main")
@@ -342,30 +348,40 @@ def canon_note(raw):
     return {"files": files, "prompts": prompts, "base": n["base"]}
 
 
+VOLATILE_PROMPT_FIELDS = ("total_additions", "total_deletions", "accepted_lines", "overriden_lines", "human_author")
+
+
 def note_diff(a, b):
-    """'' when equivalent, else a short description.  Equivalence = same files, same sessions per file,
-    same line sets, equal prompt records (every field: both runs share the pinned clock and the commit ids,
-    so no field differs legitimately — measured, see coverage.prompt_fields_compared)."""
+    """-> (kind, text): kind '' when equivalent; 'content' when files / sessions / line sets / prompt identity
+    (agent, messages, any other field) differ; 'counters' when ONLY the statistics of a prompt record differ.
+    The statistics fields (VOLATILE_PROMPT_FIELDS) are not a function of the history even within ONE mode: the
+    same script run twice through the wrapper gives different values after an amend of a rebased commit
+    (which of several earlier records of the session is carried over depends on map iteration order) — so they
+    are compared, counted and reported, but cannot be demanded equal across modes."""
     if a is None or b is None:
-        return "" if a is b else ("note missing in %s" % ("wrapper" if a is None else "hooks"))
+        return ("", "") if a is b else ("content", "note missing in %s" % ("wrapper" if a is None else "hooks"))
     if "unparseable" in a or "unparseable" in b:
-        return "" if a == b else "unparseable note"
+        return ("", "") if a == b else ("content", "unparseable note")
     if a["files"] != b["files"]:
         fa, fb = a["files"], b["files"]
         if set(fa) != set(fb):
-            return "file sets differ: wrapper %s hooks %s" % (sorted(fa), sorted(fb))
-        return "line sets differ: " + "; ".join(f"{p}: wrapper {fa[p]} hooks {fb[p]}" for p in fa if fa[p] != fb[p])[:300]
+            return "content", "file sets differ: wrapper %s hooks %s" % (sorted(fa), sorted(fb))
+        return "content", "line sets differ: " + "; ".join(f"{p}: wrapper {fa[p]} hooks {fb[p]}" for p in fa if fa[p] != fb[p])[:300]
     if set(a["prompts"]) != set(b["prompts"]):
-        return "prompt sets differ: wrapper %s hooks %s" % (sorted(a["prompts"]), sorted(b["prompts"]))
-    for h in a["prompts"]:
-        if a["prompts"][h] != b["prompts"][h]:
-            ks = [k for k in set(a["prompts"][h]) | set(b["prompts"][h]) if a["prompts"][h].get(k) != b["prompts"][h].get(k)]
-            return f"prompt record {h} differs in {sorted(ks)}: wrapper " + \
-                   json.dumps({k: a['prompts'][h].get(k) for k in ks})[:120] + " hooks " + \
-                   json.dumps({k: b['prompts'][h].get(k) for k in ks})[:120]
+        return "content", "prompt sets differ: wrapper %s hooks %s" % (sorted(a["prompts"]), sorted(b["prompts"]))
     if a["base"] != b["base"]:
-        return "base_commit_sha differs"
-    return ""
+        return "content", "base_commit_sha differs"
+    vol = None
+    for h in a["prompts"]:
+        ra, rb = a["prompts"][h], b["prompts"][h]
+        if ra != rb:
+            ks = sorted(k for k in set(ra) | set(rb) if ra.get(k) != rb.get(k))
+            txt = f"prompt record {h} differs in {ks}: wrapper " + json.dumps({k: ra.get(k) for k in ks})[:120] + \
+                  " hooks " + json.dumps({k: rb.get(k) for k in ks})[:120]
+            if any(k not in VOLATILE_PROMPT_FIELDS for k in ks):
+                return "content", txt
+            vol = vol or txt
+    return ("counters", vol) if vol else ("", "")
 
 
 def compare(sw, sh):
@@ -381,9 +397,10 @@ def compare(sw, sh):
             diffs.append({"kind": "git", "what": f"branch {b}: different history or tree (git-level divergence)"})
             continue
         for pos, (a, c) in enumerate(zip(cw, ch)):
-            d = note_diff(sw["notes"].get(a), sh["notes"].get(c))
-            if d and not any(x.get("commit") == a for x in diffs):
-                diffs.append({"kind": "note", "branch": b, "position": pos, "commit": a, "what": d})
+            kind, d = note_diff(sw["notes"].get(a), sh["notes"].get(c))
+            if kind and not any(x.get("commit") == a for x in diffs):
+                diffs.append({"kind": "note" if kind == "content" else "counters", "branch": b, "position": pos,
+                              "commit": a, "what": d})
         if sw["blame"][b] != sh["blame"][b]:
             for p in sorted(set(sw["blame"][b]) | set(sh["blame"][b])):
                 if sw["blame"][b].get(p) != sh["blame"][b].get(p):
@@ -508,6 +525,8 @@ class Observer:
         self.steps = []
 
     def before(self, sim, k, st):
+        self._depth0 = len([l for l in _q(sim, "stash", "list", "--format=%H").split("\n") if l]) \
+            if st[1][:1] == ["stash"] else None
         return (len(sim.journal()), _q(sim, "rev-parse", "-q", "--verify", "HEAD").strip())
 
     def after(self, sim, k, st, res, before_):
@@ -515,7 +534,12 @@ class Observer:
         j = sim.journal()
         self.steps.append({"k": k, "args": st[1], "rc": res[0], "new": j[before:] if before <= len(j) else j,
                            "head0": head0, "head1": _q(sim, "rev-parse", "-q", "--verify", "HEAD").strip(),
-                           "out": (res[1] + res[2])[-300:],
+                           "out": (res[1] + res[2])[-300:], "stash_depth0": self._depth0,
+                           "dirty1": bool(_q(sim, "status", "--porcelain", "--untracked-files=no").strip())
+                           if st[1][:1] in (["stash"], ["reset"]) else None,
+                           "backward": (subprocess.run([REALGIT, "merge-base", "--is-ancestor", "HEAD", head0], cwd=sim.repo,
+                                                       env=sim.env(), capture_output=True).returncode == 0)
+                           if st[1][:1] == ["reset"] and head0 else None,
                            "side": sim.side_files() if sim.mode != "wrapper" else [],
                            "masked": sim.masked_hooks() if sim.mode != "wrapper" else []})
 
@@ -557,15 +581,17 @@ def scenario(args):
         # determinism / non-interference of the tracing hooks
         for a, b, what in (("G", "W", "generation (wrapper, traced) vs replay (wrapper)"),
                            ("H", "HT", "hooks vs hooks with tracing user hooks")):
-            d = [x for x in compare(snaps[a], snaps[b]) if x["kind"] != "info"]
+            d = [x for x in compare(snaps[a], snaps[b]) if x["kind"] not in ("info", "counters")]
             if d:
                 res["problems"].append({"what": "non-determinism or tracing interference: " + what, "detail": d[:2]})
+            res.setdefault("same_mode_counter_diffs", []).extend(
+                x for x in compare(snaps[a], snaps[b]) if x["kind"] == "counters")
         res["diffs"] = compare(snaps["W"], snaps["H"])
         if "B" in out:
             jb = [shape_of(e) for e in out["B"][0].journal()]
             jw = [shape_of(e) for e in out["W"][0].journal()]
             res["both_journal_equal"] = jb == jw
-            res["both_diffs"] = [x for x in compare(snaps["W"], snaps["B"]) if x["kind"] != "info"]
+            res["both_diffs"] = [x for x in compare(snaps["W"], snaps["B"]) if x["kind"] not in ("info", "counters")]
         res["segs_native"] = git_segments(parse_trace(G.tracefile))
         res["segs_hooks"] = git_segments(parse_trace(out["HT"][0].tracefile))
         res["steps_W"] = out["W"][1].steps
@@ -629,7 +655,9 @@ KNOWN_DOC = {
               "wrapper clears / rebuilds the pending attribution; hooks mode sees no qualifying reference-transaction",
     "C13-K7": "path checkout (`git checkout [<tree>] -- <path>`): only the wrapper drops the pending attribution of the path "
               "(the post-checkout hook carries no pathspec)",
-    "C13-K8": "git stash apply (refs/stash unchanged): hooks mode cannot see it, attribution saved with the stash is not restored",
+    "C13-K8": "stash commands that hooks mode must infer from refs/stash reference-transactions: apply (no ref change) and pop "
+              "with two or more entries (git 2.39 rewrites refs/stash through the reflog, no hook) are invisible — the saved "
+              "attribution is not restored; a drop with uncommitted changes (e.g. after a conflicting pop) is taken for a pop",
     "C13-K9": "git merge --squash that is already up to date: git fires no post-merge; the wrapper still records a "
               "MergeSquash event and deletes the pending attribution of HEAD",
 }
@@ -705,8 +733,16 @@ def classify(res):
         if cmd == "checkout" and "--" in a:
             hit("C13-K7", f"step {i}: path checkout")
         # ---- K8
-        if cmd == "stash" and a[1:2] == ["apply"] and st["rc"] == 0:
-            hit("C13-K8", f"step {i}: stash apply")
+        if cmd == "stash":
+            sub = a[1] if len(a) > 1 and not a[1].startswith("-") else "push"
+            if sub == "apply":
+                hit("C13-K8", f"step {i}: stash apply")
+            elif sub == "pop" and st["rc"] != 0:
+                hit("C13-K8", f"step {i}: stash pop stopped by a conflict (the entry stays, a later drop looks like a pop)")
+            elif sub == "pop" and (st.get("stash_depth0") or 0) >= 2:
+                hit("C13-K8", f"step {i}: stash pop with {st.get('stash_depth0')} entries (no reference-transaction is fired)")
+            elif sub == "drop" and st["rc"] == 0 and st.get("dirty1"):
+                hit("C13-K8", f"step {i}: stash drop with uncommitted changes (hooks mode takes it for a pop)")
         # ---- K9
         if cmd == "merge" and "--squash" in a and st["rc"] == 0 and "post-merge" not in names:
             hit("C13-K9", f"step {i}: merge --squash, nothing to merge")
@@ -720,13 +756,13 @@ if __name__ == "__main__":
     n = int(sys.argv[2]) if len(sys.argv) > 2 else 8
     base = C.scratch_dir()
     t0 = time.time()
-    out = C.parallel_map(scenario, [(base, 20260930, i, {"stream": stream}) for i in range(n)])
+    out = C.parallel_map(scenario, [(base, 20260934, i, {"stream": stream}) for i in range(n)])
     print("time", round(time.time() - t0, 1))
     for r_ in out:
         if "error" in r_:
             print("ERROR", r_["error"][-2500:])
             continue
-        real = [d for d in r_["diffs"] if d["kind"] != "info"]
+        real = [d for d in r_["diffs"] if d["kind"] not in ("info", "counters")]
         hits = classify(r_)
         print("KNOWN" if hits else "clean", sorted(hits), r_["stream"], r_["idx"], "commits", r_["n_commits"], "same_ids", r_["same_ids"], "script", r_["script_len"],
               "DIFFS" if real else "same", len(real), "problems", len(r_["problems"]), "side_end", r_["side_end"])
